@@ -2,7 +2,7 @@
 (* MC form: CfgArea on small layouts with a menu of writes; the lemmas below are what the design of the area   *)
 (* guarantees (and what the trace form demands from the real code).                                             *)
 EXTENDS CfgArea
-Menu(w) == {<<>>, <<0>>, <<w - 1>>, [i \in 1..w |-> i - 1]}                       \* bit lists, as in the traces
+Menu(w) == IF IOEnv.MENU = "small" THEN {<<w - 1>>, [i \in 1..w |-> i - 1]} ELSE {<<>>, <<0>>, <<w - 1>>, [i \in 1..w |-> i - 1]}                       \* bit lists, as in the traces
 FieldTargets == UNION {{<<r, f>> : f \in {g \in Flds(L, r) : ~Fld(L, r, g).hidden}} : r \in {x \in Leaves(L) : ~Reg(L, x).hidden}}
 Role(r, f) == IF f > 0 THEN (IF Reg(L, r).comp # "" THEN "compfield" ELSE "field")
               ELSE IF Reg(L, r).kind = "group" THEN "group" ELSE "reg"
